@@ -3,6 +3,7 @@ CONSTANTS
   KeySet = {0, 1}
   PQ <- PQB
   Aligns = {FALSE, TRUE}
+  Phases = {0, 1400}
   MaxOps = 7
   Emit = TRUE
   ErrEffects = FALSE
